@@ -60,7 +60,7 @@ def import_program(pkgroot, pkg, modules):
     if pkgroot not in sys.path:
         sys.path.insert(0, pkgroot)
     importlib.invalidate_caches()
-    return {mname: importlib.import_module("%s.%s" % (pkg, mname)) for mname in modules}
+    return {mname: importlib.import_module(pkg if mname == "__init__" else "%s.%s" % (pkg, mname)) for mname in modules}
 
 
 def call_outcome(fn, *args):
@@ -153,6 +153,24 @@ if __name__ == "__main__":
     sys.stdout.write("\n@@RESULT@@" + json.dumps(res) + "\n")
 
 
+def _deps_of(mods, fns):
+    deps = {}
+    for mname, name in fns:
+        fn = getattr(mods[mname], name)
+        key = "%s.%s" % (mname, name)
+        try:
+            g = fn.dependencies()
+            df = g.df()
+            deps[key] = {
+                "trans": sorted(x.qualified_name_without_version for x in g.transitive_memento_fn_dependencies()),
+                "direct": sorted(x.qualified_name_without_version for x in g.direct_memento_fn_dependencies()),
+                "df": sorted([str(r["src"]), str(r["target"])] for _, r in df.iterrows()) if df is not None else [],
+            }
+        except BaseException as e:  # noqa
+            deps[key] = {"error": "%s: %s" % (type(e).__name__, str(e)[:300])}
+    return deps
+
+
 def run_deps(spec):
     """
     spec = {"pkgroot","pkg","modules","store","identity","fns":[[mod,name]], "roots":[[mod,name]], "args":[...]}
@@ -164,25 +182,29 @@ def run_deps(spec):
     mods = import_program(spec["pkgroot"], spec["pkg"], spec["modules"])
     deps = {}
     if not spec["identity"]:
-        for mname, name in spec["fns"]:
-            fn = getattr(mods[mname], name)
-            key = "%s.%s" % (mname, name)
-            try:
-                g = fn.dependencies()
-                df = g.df()
-                deps[key] = {
-                    "trans": sorted(x.qualified_name_without_version for x in g.transitive_memento_fn_dependencies()),
-                    "direct": sorted(x.qualified_name_without_version for x in g.direct_memento_fn_dependencies()),
-                    "df": sorted([str(r["src"]), str(r["target"])] for _, r in df.iterrows()) if df is not None else [],
-                }
-            except BaseException as e:  # noqa
-                deps[key] = {"error": "%s: %s" % (type(e).__name__, str(e)[:300])}
+        deps = _deps_of(mods, spec["fns"])
     verif_rt.take()
     results = {}
     for mname, name in spec["roots"]:
         fn = getattr(mods[mname], name)
         results["%s.%s" % (mname, name)] = [call_outcome(fn, a) for a in spec["args"]]
-    return {"deps": deps, "results": results}
+    out = {"deps": deps, "results": results}
+    if spec.get("passing") and not spec["identity"]:
+        # the same roots called with memento functions handed over in the context arguments (such functions may be
+        # called although they are outside the closure), then called again without them on a new argument
+        handed = [getattr(mods[m_], n_) for m_, n_ in spec["passing"]]
+        out["passed"], out["after"] = {}, {}
+        for mname, name in spec["roots"]:
+            fn = getattr(mods[mname], name)
+            key = "%s.%s" % (mname, name)
+            out["passed"][key] = call_outcome(fn.with_context_args({"handed": handed}), spec["pass_arg"])
+            out["after"][key] = call_outcome(fn, spec["after_arg"])
+    if spec.get("evolve_cells") and not spec["identity"]:
+        # in-process evolution without any memento registration (a plain helper is re-defined), then the closures again
+        for mname, src in spec["evolve_cells"]:
+            exec_cell(mods[mname], src)
+        out["deps2"] = _deps_of(mods, spec["fns"])
+    return out
 
 
 def run_events(spec):
